@@ -2563,8 +2563,35 @@ void updateBaseUnitCount(const ModelPtr &model,
                          double &multiplier,
                          const std::string &uName,
                          double uExp, double logMult,
+                         int direction,
+                         std::vector<std::string> &unitsOnPath);
+
+void updateBaseUnitCount(const ModelPtr &model,
+                         std::map<std::string, double> &unitMap,
+                         double &multiplier,
+                         const std::string &uName,
+                         double uExp, double logMult,
                          int direction)
 {
+    std::vector<std::string> unitsOnPath;
+
+    updateBaseUnitCount(model, unitMap, multiplier, uName, uExp, logMult, direction, unitsOnPath);
+}
+
+void updateBaseUnitCount(const ModelPtr &model,
+                         std::map<std::string, double> &unitMap,
+                         double &multiplier,
+                         const std::string &uName,
+                         double uExp, double logMult,
+                         int direction,
+                         std::vector<std::string> &unitsOnPath)
+{
+    // Units that are defined in terms of themselves (reported by
+    // validateUnits) have no base units to count.
+    if (std::find(unitsOnPath.begin(), unitsOnPath.end(), uName) != unitsOnPath.end()) {
+        return;
+    }
+
     if (model->hasUnits(uName)) {
         UnitsPtr u = model->units(uName);
         if (u->isBaseUnit()) {
@@ -2584,7 +2611,9 @@ void updateBaseUnitCount(const ModelPtr &model,
                 u->unitAttributes(i, ref, pre, exp, expMult, id);
                 mult = std::log10(expMult);
                 if (!isStandardUnitName(ref)) {
-                    updateBaseUnitCount(model, unitMap, multiplier, ref, exp * uExp, logMult + mult * uExp + convertPrefixToInt(pre) * uExp, direction);
+                    unitsOnPath.push_back(uName);
+                    updateBaseUnitCount(model, unitMap, multiplier, ref, exp * uExp, logMult + mult * uExp + convertPrefixToInt(pre) * uExp, direction, unitsOnPath);
+                    unitsOnPath.pop_back();
                 } else {
                     for (const auto &iter : standardUnitsList.at(ref)) {
                         unitMap.at(iter.first) += direction * (iter.second * exp * uExp);
